@@ -738,9 +738,11 @@ func (vc *FuncVC) argTypeMods(c *ssa.CallCommon, mods map[string]bool) {
 // see — so acquiring a mutex this execution has already released is an obligation (it fails unless the two mutexes are
 // provably different objects).
 func (vc *FuncVC) lockAtomic(st *State, fn *ssa.Function, args []Value, pos token.Pos) {
-	if len(args) == 0 || st.fr == nil || st.fr.parent != nil {
-		return // only calls made by the function under verification itself
+	if len(args) == 0 || st.fr == nil {
+		return
 	}
+	// calls made by the function under verification itself and by the helpers inlined into it count; a callee that
+	// is called through its contract owns its critical sections (they are checked with that callee)
 	var acquire bool
 	switch fn.String() {
 	case "(*sync.Mutex).Lock", "(*sync.RWMutex).Lock", "(*sync.RWMutex).RLock":
